@@ -764,6 +764,43 @@ func indexDischarged(fn *ssa.Function, blk *ssa.BasicBlock, base, index ssa.Valu
 			}
 		}
 	}
+	// 0b. the position the library found in this very list (slices.Index / IndexFunc: −1 or a valid
+	// index), used on the side of a test that excludes −1
+	if c, ok := index.(*ssa.Call); ok && kind == "index" {
+		if callee := c.Call.StaticCallee(); callee != nil && (strings.HasPrefix(callee.String(), "slices.IndexFunc[") || strings.HasPrefix(callee.String(), "slices.Index[")) && len(c.Call.Args) >= 1 && (c.Call.Args[0] == base || rootOf(c.Call.Args[0], 0) == baseRoot) {
+			for d := blk; d != nil; d = d.Idom() {
+				par := d.Idom()
+				if par == nil {
+					break
+				}
+				cnd, neg := condOf(par)
+				bo, isBo := cnd.(*ssa.BinOp)
+				if !isBo || len(par.Succs) != 2 {
+					continue
+				}
+				k, isK := bo.Y.(*ssa.Const)
+				if bo.X != index || !isK || k.Value == nil {
+					continue
+				}
+				kv, exact := constant.Int64Val(k.Value)
+				if !exact {
+					continue
+				}
+				// the side on which index >= 0 holds
+				holdsOnTrue := (bo.Op == token.GEQ && kv == 0) || (bo.Op == token.GTR && kv == -1) || (bo.Op == token.NEQ && kv == -1)
+				holdsOnFalse := (bo.Op == token.LSS && kv == 0) || (bo.Op == token.LEQ && kv == -1) || (bo.Op == token.EQL && kv == -1)
+				if neg {
+					holdsOnTrue, holdsOnFalse = holdsOnFalse, holdsOnTrue
+				}
+				if holdsOnTrue && par.Succs[0].Dominates(blk) && len(par.Succs[0].Preds) == 1 {
+					return true
+				}
+				if holdsOnFalse && par.Succs[1].Dominates(blk) && len(par.Succs[1].Preds) == 1 {
+					return true
+				}
+			}
+		}
+	}
 	// 1. range index: index = phi+1 compared (<) with len(base)
 	if bo, ok := index.(*ssa.BinOp); ok && bo.Op == token.ADD {
 		if ph, ok := bo.X.(*ssa.Phi); ok && strings.TrimSpace(ph.Comment) == "rangeindex" {
@@ -3677,6 +3714,30 @@ func LexProgressRule(w *World, r *Result, rule string) {
 						if g, ok := ia.X.(*ssa.UnOp); ok {
 							if gl, ok := g.X.(*ssa.Global); ok && lf.PunctVar != nil && gl.Name() == lf.PunctVar.Name() {
 								return punctNonEmpty
+							}
+						}
+					}
+				}
+			}
+			// … through a local copy of the element (mapping := table[i]; mapping.value)
+			if u0, ok := s.(*ssa.UnOp); ok {
+				if fa, ok := u0.X.(*ssa.FieldAddr); ok {
+					if al, ok := fa.X.(*ssa.Alloc); ok && al.Referrers() != nil {
+						var val ssa.Value
+						cnt := 0
+						for _, ref := range *al.Referrers() {
+							if st, ok := ref.(*ssa.Store); ok && st.Addr == ssa.Value(al) {
+								val = st.Val
+								cnt++
+							}
+						}
+						if u, ok := val.(*ssa.UnOp); ok && cnt == 1 {
+							if ia, ok := u.X.(*ssa.IndexAddr); ok {
+								if g, ok := ia.X.(*ssa.UnOp); ok {
+									if gl, ok := g.X.(*ssa.Global); ok && lf.PunctVar != nil && gl.Name() == lf.PunctVar.Name() && isString(s.Type()) {
+										return punctNonEmpty
+									}
+								}
 							}
 						}
 					}
